@@ -69,6 +69,12 @@ def run(tier, seed, replay):
         f = swres["first"][0]
         v.violation("board:dac-sweep", "%d of %d (DAC byte, input at / around the DAC voltage) cases differ from Board.tla, e.g. ops %s: %s"
                     % (swres["mismatches"], swres["cases"], json.dumps(f["case"]["h"]), f["diff"][:3]), f)
+    # comparator rule below the millivolt grid of Board.tla: f32 neighbours (+-3 ulp) of every DAC voltage, decimal spellings of k/100,
+    # non-numbers; three orders of DAC write / input change; through the Machine-level setters and the bus
+    cmp = vlib.vh_json(["comp-sweep"], timeout=3000)
+    if cmp["bad"]:
+        v.violation("board:comparator-f32", "comparator bit != (reported input > reported DAC voltage) in %d of %d cases, e.g. %s"
+                    % (cmp["bad"], cmp["cases"], json.dumps(cmp["first"][:2])), cmp["first"])
     # clamp rule over f32 bit patterns (TLA+ has no floats: class table checked on the Rust side)
     step = 4099 if tier == "quick" else 1
     cs = vlib.vh_json(["clamp-sweep", str(step)], timeout=3000)
@@ -95,7 +101,7 @@ def run(tier, seed, replay):
         "samples": [{"alphabet_size": len(cases[0]["ops"]), "first_ops": cases[0]["ops"][:4]},
                     {"state_sig": states[len(states) // 2]["pre"], "successor_sig_of_first_action": states[len(states) // 2]["rows"][0]}],
         "board_states_restored": res["states"], "dac_sweep_cases": swres["cases"], "transitions_replayed": res["transitions"],
-        "clamp_patterns": cs["patterns"], "clamp_classes_nan_neg_high_inrange": cs["classes_nan_neg_high_inrange"],
+        "comparator_f32_cases": cmp["cases"], "clamp_patterns": cs["patterns"], "clamp_classes_nan_neg_high_inrange": cs["classes_nan_neg_high_inrange"],
         "random_trace_events_validated": nev,
         "exhaustive": False,
         "rule": "TLC BFS to depth 3 over the alphabet (all 8 sources x 2 polarities, boundary bytes/millivolts, non-finite classes) with "
